@@ -64,6 +64,21 @@ def simulate(rng):
 UVAR = ['angular position', 'angular speed', 'angular acceleration', 'torque', 'driving torque', 'load torque', 'tangential force', 'bending stress', 'electric current']
 
 
+DEFAULT_UNITS = dict(angular_position_unit='rad', angular_speed_unit='rad/s', angular_acceleration_unit='rad/s^2', torque_unit='Nm',
+                     driving_torque_unit='Nm', load_torque_unit='Nm', force_unit='N', stress_unit='MPa', current_unit='A')
+
+
+def passed(rng, us):
+    """the keyword arguments of a call: some units are left to their documented defaults (us is updated to the effective units)"""
+    kw = {}
+    for k in UKEYS:
+        if rng.random() < 0.25:
+            us[k] = DEFAULT_UNITS[k]
+        else:
+            kw[k] = us[k]
+    return kw
+
+
 def rand_units(rng, els=None):
     us = {k: rng.choice(S.units(kd)) for k, kd in zip(UKEYS, UKIND)}
     if els is not None:
@@ -102,6 +117,7 @@ def ctimes(pt):
 
 def snap_case(rng, pt, els):
     us = rand_units(rng, els)
+    kw = passed(rng, us)
     r = rng.random()
     if r < 0.25:
         req = None
@@ -122,7 +138,7 @@ def snap_case(rng, pt, els):
     tu = rng.choice(S.units('Time'))
     target = ['Time', tsec / S.ffactor('Time', tu), tu]
     try:
-        df = pt.snapshot(target_time=scen.mkq(target), variables=None if req is None else list(req), print_data=False, **us)
+        df = pt.snapshot(target_time=scen.mkq(target), variables=None if req is None else list(req), print_data=False, **kw)
         cols = list(df.columns)
         rows = [(name, [None if (v is None or (isinstance(v, float) and math.isnan(v)) or pd.isna(v)) else float(v) for v in df.loc[name]]) for name in df.index]
         exp = ('ok', cols, rows)
@@ -139,12 +155,48 @@ def snap_case(rng, pt, els):
     return coq, dict(kind='snapshot', req=req, units=us, target=target, exp=exp, on_instant=tsec in ts)
 
 
+def export_pt_cases(rng, pt, els, tmpdir):
+    """Powertrain.export_time_variables: one call, one file per element (the files written before an element raises are compared too)"""
+    us = rand_units(rng, els)
+    kw = passed(rng, us)
+    tu = rng.choice(S.units('Time'))
+    if rng.random() < 0.75:
+        kw['time_unit'] = tu
+    else:
+        tu = 'sec'
+    folder = os.path.join(tmpdir, f'pt{rng.random()}')
+    err = None
+    try:
+        pt.export_time_variables(folder_path=folder, **kw)
+    except Exception as ex:  # noqa
+        n = type(ex).__name__
+        err = n if n in scen.EXN else 'Other:' + n
+    out = []
+    for el in els:
+        path = os.path.join(folder, el.name + '.csv')
+        if os.path.exists(path):
+            df = pd.read_csv(path, float_precision='round_trip')
+            exp = ('ok', [(c, [float(v) for v in df[c]]) for c in df.columns])
+            e = f'(ExpOk {scen.clist([f"({lib.coq_str(c)}, {scen.clist([lib.flit(v) for v in vs])})" for c, vs in exp[1]])})'
+        elif err is not None:
+            exp = ('err', err)
+            e = f'(ExpErr {err if not err.startswith("Other") else "OracleMiss"})'
+        else:
+            exp = ('err', 'Other:file-missing')
+            e = '(ExpErr OracleMiss)'
+        out.append((f'(RExport O {ctimes(pt)} {crec(el)} {cunits(us, tu)} {e})', dict(kind='export-powertrain', element=el.name, units=dict(us), time_unit=tu, exp=exp)))
+        if exp[0] == 'err':
+            break
+    return out
+
+
 def export_case(rng, pt, el, tmpdir):
     us = rand_units(rng, [el])
+    kw = passed(rng, us)
     tu = rng.choice(S.units('Time'))
     path = os.path.join(tmpdir, f'{rng.random()}.csv')
     try:
-        export_time_variables(rotating_object=el, file_path=path, time_array=pt.time, time_unit=tu, **us)
+        export_time_variables(rotating_object=el, file_path=path, time_array=pt.time, time_unit=tu, **kw)
         df = pd.read_csv(path, float_precision='round_trip')
         exp = ('ok', [(c, [float(v) for v in df[c]]) for c in df.columns])
     except Exception as ex:  # noqa
@@ -174,6 +226,9 @@ def correspondence(pid, tier, seed):
                 recs.append(r)
             for el in els:
                 c, r = export_case(rng, pt, el, d)
+                items.append(c)
+                recs.append(r)
+            for c, r in export_pt_cases(rng, pt, els, d):
                 items.append(c)
                 recs.append(r)
     per = 60
@@ -218,6 +273,7 @@ def search(pid, tier, seed, escalate, hints):
             for _ in range(4):
                 k += 1
                 us = rand_units(rng, els)
+                kw = passed(rng, us)
                 avail = sorted({kk for e in els for kk in e.time_variables}, key=VARS.index)
                 req = rng.sample(avail, rng.randint(1, len(avail)))
                 i = rng.randrange(len(ts) - 1)
@@ -225,7 +281,7 @@ def search(pid, tier, seed, escalate, hints):
                 tsec = ts[i] + lam * (ts[i + 1] - ts[i])
                 tu = rng.choice(S.units('Time'))
                 try:
-                    df = pt.snapshot(target_time=U.Time(tsec / S.ffactor('Time', tu), tu), variables=list(req), print_data=False, **us)
+                    df = pt.snapshot(target_time=U.Time(tsec / S.ffactor('Time', tu), tu), variables=list(req), print_data=False, **kw)
                 except Exception as ex:  # noqa
                     out.append(dict(cls='snapshot-raises', what=f'snapshot raised {type(ex).__name__}: {str(ex)[:120]} at t={tsec!r} s inside the simulated interval, variables {req}', case=dict(scenario=sc)))
                     continue
@@ -249,31 +305,52 @@ def search(pid, tier, seed, escalate, hints):
                         scale = max(abs(y[i]), abs(y[i + 1]), 1e-300)
                         if not (isinstance(got, (int, float, np.floating)) and abs(float(got) - want) <= 1e-8 * scale + 1e-12 * scale * (ts[-1] / max(ts[i + 1] - ts[i], 1e-300))):
                             out.append(dict(cls='cell', what=f'snapshot at t={tsec!r} s: {e.name} {col} is {got!r}, the recorded samples give {want!r}', case=dict(scenario=sc)))
+            # exports: the function, element by element, then the Powertrain method (one call, one file per element)
+            plans = []
             for e in els:
-                k += 1
                 us = rand_units(rng, [e])
+                kw = passed(rng, us)
                 tu = rng.choice(S.units('Time'))
-                path = os.path.join(d, f'{rng.random()}.csv')
-                d13 = any(len(v) != len(ts) for v in e.time_variables.values())
+                plans.append(('function', [e], us, kw, tu))
+            us = rand_units(rng, els)
+            kw = passed(rng, us)
+            tu = rng.choice(S.units('Time'))
+            plans.append(('method', list(els), us, kw, tu))
+            for how, targets, us, kw, tu in plans:
+                k += 1
+                folder = os.path.join(d, f'x{rng.random()}')
+                d13 = any(len(v) != len(ts) for e in targets for v in e.time_variables.values())
                 try:
-                    export_time_variables(rotating_object=e, file_path=path, time_array=pt.time, time_unit=tu, **us)
+                    if how == 'function':
+                        export_time_variables(rotating_object=targets[0], file_path=os.path.join(folder, targets[0].name), time_array=pt.time, time_unit=tu, **kw)
+                    else:
+                        pt.export_time_variables(folder_path=folder, time_unit=tu, **kw)
                 except Exception as ex:  # noqa
-                    out.append(dict(cls='D13' if d13 else 'export-raises', what=f'export of {e.name} raised {type(ex).__name__}: {str(ex)[:120]}', case=dict(scenario=sc)))
+                    out.append(dict(cls='D13' if d13 else 'export-raises', what=f'export ({how}) of {[e.name for e in targets]} raised {type(ex).__name__}: {str(ex)[:120]}', case=dict(scenario=sc)))
                     continue
-                df = pd.read_csv(path, float_precision='round_trip')
-                if len(df) != len(ts):
-                    out.append(dict(cls='export-rows', what=f'exported file of {e.name} has {len(df)} rows for {len(ts)} instants', case=dict(scenario=sc)))
-                    continue
-                ukey = dict(zip(VARS[:9] + ['electric current'], UKEYS[:6] + ['force_unit', 'stress_unit', 'stress_unit', 'current_unit']))
-                for v, smp in e.time_variables.items():
-                    col = 'pwm' if v == 'pwm' else f'{v} ({us[ukey[v]]})'
-                    if col not in df.columns:
-                        out.append(dict(cls='export-column', what=f'exported file of {e.name} lacks column {col!r}: {list(df.columns)}', case=dict(scenario=sc)))
-                        break
-                    for j, x in enumerate(smp):
-                        want = x if v == 'pwm' else x.value * S.ffactor(KIND[v], x.unit) / S.ffactor(KIND[v], us[ukey[v]])
-                        if abs(float(df[col][j]) - want) > 1e-9 * max(abs(want), 1e-300):
-                            out.append(dict(cls='export-cell', what=f'exported {e.name} row {j} column {col!r} is {df[col][j]!r}, the recorded sample {x!r} converted is {want!r}', case=dict(scenario=sc)))
+                for e in targets:
+                    path = os.path.join(folder, e.name + '.csv')
+                    if not os.path.exists(path):
+                        out.append(dict(cls='export-file', what=f'export ({how}) wrote no file for {e.name}', case=dict(scenario=sc)))
+                        continue
+                    df = pd.read_csv(path, float_precision='round_trip')
+                    if len(df) != len(ts):
+                        out.append(dict(cls='export-rows', what=f'exported file of {e.name} has {len(df)} rows for {len(ts)} instants', case=dict(scenario=sc)))
+                        continue
+                    ukey = dict(zip(VARS[:9] + ['electric current'], UKEYS[:6] + ['force_unit', 'stress_unit', 'stress_unit', 'current_unit']))
+                    for v, smp in e.time_variables.items():
+                        col = 'pwm' if v == 'pwm' else f'{v} ({us[ukey[v]]})'
+                        if col not in df.columns:
+                            out.append(dict(cls='export-column', what=f'export ({how}, units passed {kw}): file of {e.name} lacks column {col!r}: {list(df.columns)}', case=dict(scenario=sc)))
+                            break
+                        bad = False
+                        for j, x in enumerate(smp):
+                            want = x if v == 'pwm' else x.value * S.ffactor(KIND[v], x.unit) / S.ffactor(KIND[v], us[ukey[v]])
+                            if abs(float(df[col][j]) - want) > 1e-9 * max(abs(want), 1e-300):
+                                out.append(dict(cls='export-cell', what=f'export ({how}): {e.name} row {j} column {col!r} is {df[col][j]!r}, the recorded sample {x!r} converted is {want!r}', case=dict(scenario=sc)))
+                                bad = True
+                                break
+                        if bad:
                             break
             if len([w for w in out if w['cls'] != 'D13']) >= 5:
                 break
